@@ -90,6 +90,38 @@ def run(ctx):
         except AttributeError as e:
             H.violation("monkeytype.typing:GenericTypeRewriter.rewrite", "C07-name-dispatch|AttributeError", "a plain class named like a handler suffix is routed to that handler and the rewriter raises",
                         {"type": "List[<class named %s>]" % nm}, repr(e))
+    H.section("same-named classes, one long-lived rewriter", "factory-made classes that share module and qualified name but derive from unrelated bases, rewritten one after the other by the same rewriter instances: "
+              "no narrowing (instances of every member stay admitted)", "2 factories x 2 orders x all rewriters")
+
+    def make_handler(base):
+        class Handler(base):
+            pass
+        return Handler
+    class ShapeB: pass
+    class EventB: pass
+    class CircleB(ShapeB): pass
+    class SquareB(ShapeB): pass
+    class ClickB(EventB): pass
+    for order in (0, 1):
+        RW2 = rewriters()
+        h_shape, h_event = make_handler(ShapeB), make_handler(EventB)
+        steps = [(Union[h_shape, CircleB], [h_shape(), CircleB()]), (Union[h_event, SquareB], [h_event(), SquareB()]), (Union[h_event, ClickB], [h_event(), ClickB()]), (Union[h_shape, ClickB], [h_shape(), ClickB()])]
+        if order:
+            steps = steps[::-1]
+        for name, rw in RW2.items():
+            for si, (t, wit) in enumerate(steps):
+                key = "same-named|%s|order=%d|step=%d" % (name, order, si)
+                try:
+                    r = rw.rewrite(t)
+                    bad = [v for v in wit if not spec_c.mem(v, r)]
+                except Exception as e:      # noqa
+                    H.violation("monkeytype.typing:%s" % name, "rewrite-raises:%s:%s" % (key, type(e).__name__), "%s.rewrite raises %r" % (name, e), {"type": repr(t)}, repr(e))
+                    continue
+                if bad:
+                    H.violation("monkeytype.typing:%s" % name, "narrowed:%s" % key, "%s narrows a union of same-named classes after rewriting another one" % name, {"type": repr(t), "order": order, "step": si},
+                                {"result": repr(r), "rejected": infer.short(bad)})
+                else:
+                    H.ok(key, nontrivial=not spec_c.tyeq(r, t))
     H.section("rewriters on enumerated types", "TYPES(2) over the fixture hierarchy incl. Tuple[()], Tuple[T, ...], Type, Callable, Iterator, Generator, unions of 2..7 members: no exception; unchanged unless trigger; "
               "witness values of the input (enumerated inhabitants) stay members", "depth<=2")
     inhabitants = corpus.vals(1, 2)
